@@ -13,7 +13,8 @@ RULE = ("(a) Hypothesis programs (1-3 files, includes, local labels, address-ali
         "'name = expr' is position independent; a variant moves k definitions to other top-level positions of their file or permutes "
         "all of them; outcome class, base and bytes must be equal (and equal to the reference assembler's). (b) the 21 practice "
         "programs: movable top-level definitions located with pdpy11's own parser are cut and re-inserted at other statement "
-        "boundaries. (c) definition chains a_i = a_(i+1) op k_i of depth 300 (additive) and 30 (non-linear operators) written in "
+        "boundaries. (c) definition chains a_i = a_(i+1) op k_i of depth 300 (additive) and 30 (non-linear operators) and definition DAGs a_i = c*a_(i+1) +- a_j +- k (depth 4, 9, 25: several "
+        "paths lead to one symbol) written in "
         "forward, reverse and drawn order and used from an immediate, an index, a branch distance, a .blkb count, a .repeat count, a "
         "string <n> and a %<reg>; value also checked against the big-integer evaluator. Non-trivial: >= 1 definition moved across "
         ">= 1 of its uses (or a chain); distinct = distinct (original, variant) text pair.")
@@ -249,6 +250,16 @@ def chain_case(depth, ops_kind, order, use, seed):
     vals[depth] = val
     defs.append((depth, ("num", val)))
     for i in range(depth - 1, -1, -1):
+        if ops_kind == "dag":
+            # two references per definition: a_i = c1*a_(i+1) +- a_j +- k with j > i drawn (diamonds: several paths to one symbol)
+            j = rnd.randrange(i + 1, depth + 1)
+            c1 = rnd.choice([1, 1, 2, 3])
+            o1, o2, k = rnd.choice(["+", "-"]), rnd.choice(["+", "-"]), rnd.randrange(0, 50)
+            first = ("sym", names[i + 1]) if c1 == 1 else ("bin", "*", ("num", c1), ("sym", names[i + 1]))
+            e = ("bin", o2, ("bin", o1, first, ("sym", names[j])), ("num", k))
+            vals[i] = X.binop(o2, X.binop(o1, c1 * vals[i + 1], vals[j]), k)
+            defs.append((i, e))
+            continue
         if ops_kind == "add":
             op, k = rnd.choice(["+", "-"]), rnd.randrange(0, 50)
         else:
@@ -299,10 +310,10 @@ def chain_case(depth, ops_kind, order, use, seed):
 def run_shard(spec, ctx):
     part = spec["part"]
     if part == "chains":
-        for depth, kind in ((300, "add"), (30, "nonlinear"), (3, "nonlinear"), (12, "add")):
+        for depth, kind in ((300, "add"), (30, "nonlinear"), (3, "nonlinear"), (12, "add"), (4, "dag"), (9, "dag"), (25, "dag")):
             for order in ("forward", "reverse", "random"):
                 for use in ("imm", "index", "branch", "blkb", "repeat", "string", "reg"):
-                    for sd in range(3):
+                    for sd in range(6 if kind == "dag" else 3):
                         case = {"kind": "chain", "depth": depth, "ops": kind, "order": order, "use": use, "seed": sd}
                         ctx.case(repr(case), True, [f"chain-{kind}-{depth}", f"order-{order}", f"use-{use}"],
                                  sample=case if (depth, order, use, sd) in ((30, "random", "reg", 0), (300, "forward", "imm", 1)) else None)
